@@ -108,11 +108,21 @@ Definition suicide_clean {A KV : Type} (owned : A -> KV -> bool) (order : list A
 Definition ont_init_notifications {K V : Type} (order : list (K * V)) : list (K * V) :=
   range_fold (fun acc kv => acc ++ [kv]) order [].
 
-(** ** A7 (FINDING). native/ontfs/errors.go Errors.ToString -- the payload of the event pushed by
-       AddErrorsEvent:  EncodeVarUint(len); for obj, err := range ObjectErrors { WriteVarBytes(obj); WriteVarBytes(err) }
-    (base64 of the buffer; base64 is injective, omitted).  Lengths < 0xFD use the one-byte varuint. *)
+(** ** A7. native/ontfs/errors.go Errors.ToString -- the payload of the event pushed by AddErrorsEvent,
+       as repaired in 859ea035:
+         EncodeVarUint(len); objs := keys collected by `for obj := range ObjectErrors`; sort.Strings(objs);
+         for _, obj := range objs { WriteVarBytes(obj); WriteVarBytes(ObjectErrors[obj]) }
+    (base64 of the buffer; base64 is injective, omitted).  Lengths < 0xFD use the one-byte varuint.
+    ObjectErrors[obj] is the map lookup [am_get] (a missing key would read "", it cannot be missing). *)
 Definition var_bytes_small (b : bytes) : bytes := N.of_nat (List.length b) :: b.
+Definition ontfs_lookup (order : list (bytes * bytes)) (k : bytes) : bytes :=
+  match am_get bytes_eqb k order with Some v => v | None => [] end.
 Definition ontfs_errors_to_string (order : list (bytes * bytes)) : bytes :=
+  fold_left (fun buf k => buf ++ var_bytes_small k ++ var_bytes_small (ontfs_lookup order k))
+            (collect_sort bytes_leb (fun kv => Some (fst kv)) order)
+            [N.of_nat (List.length order)].
+(** the writer before the repair: entries written in visiting order (kept as the regression witness) *)
+Definition ontfs_errors_to_string_unsorted (order : list (bytes * bytes)) : bytes :=
   range_fold (fun buf kv => buf ++ var_bytes_small (fst kv) ++ var_bytes_small (snd kv)) order
              [N.of_nat (List.length order)].
 
